@@ -954,6 +954,26 @@ def _id_suite(ctx, M, obj, rs, pool_n, gen, mode):
             if exc is not None:      # empty, unbounded result: nothing to compare besides emptiness
                 b = None
             ok, nw = _check_members(ctx, "id.members", (fn, "reduced" if reduced else "whole"), M, obj, res, expected, [], b, detail)
+            if expected and b is not None:
+                # an identifier query keeps the bounds of its source, stretched to every kept member that hangs over them
+                kept_spans = [span(m) for m in expected]
+                want_b = (min([M["start"]] + [x[0] for x in kept_spans]), max([M["end"]] + [x[1] for x in kept_spans]))
+                over = any(x[0] < M["start"] or x[1] > M["end"] for x in kept_spans)
+                ctx.check("id.members", tuple(b) == want_b, key=("bounds", fn, "kept-member-overhangs-bounds" if over else "inside"), got=list(b), want=list(want_b),
+                          kept_spans=[list(x) for x in kept_spans][:8], **detail)
+                if not over and not reduced and len(expected) == len(mem) and fn == "query_by_guids":
+                    # selecting every member of a collection by identifier is the identity (same dictionary form, same identifier)
+                    a1, a2 = ctx.call(res.to_dict), ctx.call(obj.to_dict)
+
+                    def norm(d):      # the order in which members are listed is not part of the claim
+                        import json as _json
+
+                        return {k: (sorted(v, key=lambda x: _json.dumps(x, sort_keys=True, default=str)) if isinstance(v, list) else v) for k, v in d.items()}
+
+                    same = a1[1] is None and a2[1] is None and norm(a1[0]) == norm(a2[0])
+                    diff = [k for k in a2[0] if norm(a1[0]).get(k) != norm(a2[0])[k]][:5] if (a1[1] is None and a2[1] is None) else None
+                    ctx.check("id.members", same, key=("select-all-is-identity", fn, "generation>1" if gen > 1 else "generation1"),
+                              differing_keys=diff, **detail)
             if ok and expected and b is not None and len(outs) < 6 and rs.random() < 0.3:
                 outs.append((res, {"start": b[0], "end": b[1], "win": nw, "genome": M.get("genome"), "members": expected}))
     _member_level_guid_queries(ctx, obj, rs, unknown_guid, gen)
@@ -984,6 +1004,10 @@ def _member_level_guid_queries(ctx, obj, rs, unknown_guid, gen):
             got = [k.guid for k in res.iter_children()] if ok else None
             ctx.check("id.members", ok and sorted(map(str, got)) == sorted(map(str, want)), key=("member-level", type(mem).__name__, "children"),
                       got=[str(x) for x in got] if got is not None else repr(res)[:120], want=[str(x) for x in want], **det)
+            if ok and type(mem).__name__ != "VariantIntervalCollection" and got is not None and sorted(map(str, got)) == sorted(map(str, want)):
+                # the children come back in the order in which they were requested (the order decides the primary child among ties, C20)
+                ctx.check("id.members", [str(x) for x in got] == [str(x) for x in want], key=("member-level", type(mem).__name__, "children-in-request-order"),
+                          got=[str(x) for x in got], want=[str(x) for x in want], **det)
             if ok:
                 d = res.to_dict()
                 same = all(next((c for c in d[key] if c == src[g]), None) is not None for g in want) and len(d[key]) == len(want)
